@@ -286,3 +286,269 @@ def subst_words(body, params, args):
         w = m.group(0)
         return table.get(w, w)
     return WORD.sub(rep, body)
+
+
+# ---------------------------------------------------------------------------------------------
+# Wrapped programs and their hand expansion (the `prog` oracle)
+# ---------------------------------------------------------------------------------------------
+
+PIECE = re.compile(r'"(?:[^"\\]|\\.)*"|[A-Za-z_][A-Za-z0-9_]*|[0-9][A-Za-z0-9_]*')
+TRICKY_PARAMS = ["b", "h", "q", "x", "d", "w", "l", "e", "b1", "_p", "p_", "a"]
+
+
+def split_stmt(line):
+    """(head, operands): head = indentation + first word (mnemonic / directive), operands = rest"""
+    m = re.match(r"(\s*\S+)(.*)$", line, re.S)
+    return (m.group(1), m.group(2)) if m else (line, "")
+
+
+def words_of(text):
+    return set(m.group(0) for m in re.finditer(r"[A-Za-z0-9_]+", text))
+
+
+def sub_words_str(text, params, args):
+    return subst_words(text.encode("latin-1"), [p.encode("latin-1") for p in params],
+                       [a.encode("latin-1") for a in args]).decode("latin-1")
+
+
+class Namer:
+    def __init__(self):
+        self.n = 0
+
+    def fresh(self, prefix):
+        self.n += 1
+        return "%s%d" % (prefix, self.n)
+
+
+def balanced(text):
+    """parentheses and quotes balanced, no comma outside them (can be passed as one macro argument)"""
+    parts = split_top(text)
+    if len(parts) != 1:
+        return False
+    depth, q, i = 0, None, 0
+    while i < len(text):
+        c = text[i]
+        if q:
+            if c == "\\":
+                i += 1
+            elif c == q:
+                q = None
+        elif c in "\"'":
+            q = c
+        elif c == "(":
+            depth += 1
+        elif c == ")":
+            depth -= 1
+            if depth < 0:
+                return False
+        i += 1
+    return depth == 0 and q is None
+
+
+def pick_piece(rng, line, token=False):
+    """a piece of the operand field of `line`: (start, end, text) relative to the line, or None.
+    token=True: the piece must be a token of the lexer by itself (a define name is looked up per
+    token, so `$name`, `name:`, `a.name` and `name'` do not use the define)."""
+    head, ops = split_stmt(line)
+    if line.strip().endswith(":") or not ops.strip() or head.strip().startswith((".org", ".include")):
+        return None
+    ms = list(PIECE.finditer(ops))
+    if not ms:
+        return None
+    for _ in range(4):
+        i = rng.randrange(len(ms))
+        j = i
+        if rng.random() < 0.25:
+            j = rng.randrange(i, len(ms))
+        s, e = ms[i].start() + len(head), ms[j].end() + len(head)
+        text = line[s:e]
+        if not balanced(text):
+            continue
+        if token:
+            before = line[s - 1] if s > 0 else " "
+            after = line[e] if e < len(line) else " "
+            if before in "$./'\\" or after in ":./'":
+                continue
+        return s, e, text
+    return None
+
+
+def equivalent_arg(rng, text):
+    """argument text for a piece: the piece itself or another spelling of it"""
+    if re.fullmatch(r"[0-9]+", text) and rng.random() < 0.5:
+        v = int(text, 8) if len(text) > 1 and text[0] == "0" and set(text) <= set("01234567") else int(text)
+        return rng.choice(["(%d)" % v, "%d+0" % v, "0x%x" % v, "%d" % v, "(%d + %d)" % (v - v // 2, v // 2), " %d " % v])
+    return rng.choice([text, text, " " + text, text + " "])
+
+
+def wrap_chunk(rng, chunk, names, kind, incs):
+    """returns (wrapped lines, expanded lines, tag) for one run of statements"""
+    if kind in ("define", "hashdefine", "equ", "dotequ"):
+        picks = [(k, pick_piece(rng, l, token=True)) for k, l in enumerate(chunk)]
+        picks = [(k, pp) for k, pp in picks if pp]
+        if not picks:
+            return chunk, chunk, "none"
+        k, (s, e, text) = rng.choice(picks)
+        name = names.fresh(rng.choice(["ZD", "zd_", "_Z", "ZVALUE_"]))
+        if kind == "dotequ":
+            if not re.fullmatch(r"[0-9][0-9A-Za-z_]*|[A-Za-z_][A-Za-z0-9_]*", text):
+                return chunk, chunk, "none"
+            head = "%s %s = %s" % (rng.choice([".equ", ".def"]), name, text)
+        elif kind == "equ":
+            head = "%s equ %s%s" % (name, text, rng.choice(["", " ; c", " // c", "  "]))
+        else:
+            kw = ".define" if kind == "define" else "#define"
+            head = "%s %s %s%s" % (kw, name, text, rng.choice(["", " ; c", " // c", " /* c */", "  "]))
+        wl = list(chunk)
+        wl[k] = chunk[k][:s] + name + chunk[k][e:]
+        pos = rng.randrange(k + 1)
+        return wl[:pos] + [head] + wl[pos:], list(chunk), kind
+    if kind in ("macro", "macro2", "nested", "definep"):
+        # parameters replace pieces of the body
+        body = list(chunk)
+        params, args = [], []
+        used = words_of("\n".join(chunk))
+        for _ in range(rng.choice([0, 1, 1, 2, 3, 5, 9]) if kind != "definep" else rng.choice([1, 2])):
+            picks = [(k, pick_piece(rng, l)) for k, l in enumerate(body)]
+            picks = [(k, pp) for k, pp in picks if pp]
+            if not picks:
+                break
+            k, (s, e, text) = rng.choice(picks)
+            if any(p in words_of(text) for p in params) or "\x00" in text:
+                continue
+            p = rng.choice(TRICKY_PARAMS) if rng.random() < 0.4 else names.fresh("zp")
+            if p in used or p in params:
+                p = names.fresh("zp")
+            body[k] = body[k][:s] + p + body[k][e:]
+            params.append(p)
+            args.append(text)
+            used.add(p)
+        name = names.fresh(rng.choice(["ZM", "zm_", "_ZM"]))
+        if kind == "definep":
+            if len(body) != 1 or not params:
+                return chunk, chunk, "none"
+            head, ops = split_stmt(body[0])
+            if not ops.strip():
+                return chunk, chunk, "none"
+            d = "%s %s(%s) %s" % (rng.choice([".define", "#define"]), name, ",".join(params), ops.strip())
+            call = "%s(%s)" % (name, rng.choice([",", ", "]).join(equivalent_arg(rng, a) for a in args))
+            return [d, head + " " + call], [head + " " + ops.strip()] if False else [d_expand(head, ops, params, call, name)], kind
+        sep = rng.choice([",", ", ", " , "])
+        head = ".macro " + name + ((rng.choice(["(", " ("]) + sep.join(params) + ")") if params else "")
+        blines = [l + rng.choice(["", "", " ; c", " // c"]) for l in body]
+        endm = rng.choice([".endm", "  .endm", ".ENDM"])
+        defn = [head] + blines + [endm]
+
+        def call_and_expansion(argv):
+            callargs = [equivalent_arg(rng, a) for a in argv]
+            call = name + (rng.choice(["(", " ("]) + rng.choice([",", ", "]).join(callargs) + ")" if params else
+                           rng.choice(["", "()"]) if False else "")
+            # an argument reaches the text with leading blanks removed (blanks after '(' and ',' are skipped)
+            exp = [sub_words_str(l, params, [a.lstrip(" \t") for a in callargs]) for l in body]
+            return "  " + call, exp
+        c1, e1 = call_and_expansion(args)
+        wl, el = defn + [c1], list(e1)
+        if kind == "macro2":
+            c2, e2 = call_and_expansion(args)
+            wl += [c2]
+            el += e2
+        if kind == "nested":
+            outer = names.fresh("ZO")
+            oparams = [names.fresh("zq") for _ in params]
+            ohead = ".macro %s%s" % (outer, "(" + ", ".join(oparams) + ")" if oparams else "")
+            inner_call = "  " + name + ("(" + ", ".join(oparams) + ")" if oparams else "")
+            callargs = [equivalent_arg(rng, a) for a in args]
+            ocall = "  " + outer + ("(" + ",".join(callargs) + ")" if oparams else "")
+            wl = defn + [ohead, inner_call, ".endm", ocall]
+            inner_args = [sub_words_str(q, oparams, [a.lstrip(" \t") for a in callargs]) for q in oparams]
+            el = [sub_words_str(l, params, inner_args) for l in body]
+        return wl, el, kind + ":%d" % len(params)
+    if kind == "include":
+        fn = names.fresh("zi") + ".inc"
+        incs[fn] = "\n".join(chunk) + rng.choice(["\n", "\n", "\n\n"])
+        return ['.include "%s"' % fn], list(chunk), "include"
+    return chunk, chunk, "none"
+
+
+def d_expand(head, ops, params, call, name):
+    """expansion of `head NAME(args)` for `.define NAME(params) ops`"""
+    m = re.match(r".*?\((.*)\)$", call, re.S)
+    # the call arguments of this generator contain no top-level commas except the separators it wrote
+    raw = split_top(m.group(1))
+    return head + " " + sub_words_str(ops.strip(), params, [a.lstrip(" \t") for a in raw])
+
+
+def split_top(text):
+    """split at commas outside quotes / parentheses (call syntax of the manual)"""
+    out, cur, depth, q = [], "", 0, None
+    i = 0
+    while i < len(text):
+        c = text[i]
+        if q:
+            cur += c
+            if c == "\\" and i + 1 < len(text):
+                cur += text[i + 1]; i += 1
+            elif c == q:
+                q = None
+        elif c in "\"'":
+            q = c; cur += c
+        elif c == "(":
+            depth += 1; cur += c
+        elif c == ")":
+            depth -= 1; cur += c
+        elif c == "," and depth == 0:
+            out.append(cur); cur = ""
+        else:
+            cur += c
+        i += 1
+    out.append(cur)
+    return out
+
+
+KINDS = ["define", "hashdefine", "equ", "dotequ", "macro", "macro", "macro2", "nested", "definep", "include", "none"]
+
+
+def wrapped_program(rng, lines):
+    """lines: a valid program (first lines select CPU / origin).  Returns dict with the wrapped source,
+    the hand-expanded source, include files and the list of kinds used."""
+    head = [l for l in lines[:2]]
+    body = lines[2:]
+    names = Namer()
+    incs = {}
+    wl, el, kinds = list(head), list(head), []
+    i = 0
+    while i < len(body):
+        n = rng.choice([1, 1, 2, 3])
+        chunk = body[i:i + n]
+        i += n
+        kind = rng.choice(KINDS)
+        if kind == "definep":
+            chunk, rest = chunk[:1], chunk[1:]
+        else:
+            rest = []
+        w, e, tag = wrap_chunk(rng, chunk, names, kind, incs)
+        if rng.random() < 0.2:
+            lab = names.fresh("zlab")
+            if rng.random() < 0.5:                   # label in front of the (possibly wrapped) statements
+                w = [lab + ":"] + w if rng.random() < 0.5 or not w or w[0].startswith((".", "#")) else [lab + ": " + w[0].strip()] + w[1:]
+                e = [lab + ":"] + e
+            else:
+                w = w + [lab + ":"]
+                e = e + [lab + ":"]
+        wl += w + rest
+        el += e + rest
+        kinds.append(tag)
+    return {"wrapped": "\n".join(wl) + "\n", "expanded": "\n".join(el) + "\n", "includes": incs, "kinds": kinds}
+
+
+def repeat_program(rng, lines):
+    """(source with .repeat, source with the body once, count): the body sits between zstart: and zafter:"""
+    head = lines[:2]
+    body = [l for l in lines[2:] if not l.strip().endswith(":")]
+    k = rng.randrange(0, max(1, len(body)))
+    n = rng.choice([1, 2, 3, 4, 7, 16])
+    j = min(len(body), k + rng.choice([1, 1, 2, 3]))
+    pre, rep, post = body[:k], body[k:j], body[j:]
+    w = head + pre + ["zstart:", ".repeat %d" % n] + rep + [".endr", "zafter:"] + post
+    r = head + pre + ["zstart:"] + rep + ["zafter:"] + post
+    return "\n".join(w) + "\n", "\n".join(r) + "\n", n
